@@ -1,13 +1,16 @@
 import fractions
+import logging
 from typing import Literal, cast
 
-from av import AudioFrame, AudioResampler, CodecContext
+from av import AudioFrame, AudioResampler, CodecContext, FFmpegError
 from av.frame import Frame
 from av.packet import Packet
 
 from ..jitterbuffer import JitterFrame
 from ..mediastreams import convert_timebase
 from .base import Decoder, Encoder
+
+logger = logging.getLogger(__name__)
 
 SAMPLE_RATE = 8000
 SAMPLE_WIDTH = 2
@@ -23,10 +26,18 @@ class PcmDecoder(Decoder):
         self.codec.sample_rate = SAMPLE_RATE
 
     def decode(self, encoded_frame: JitterFrame) -> list[Frame]:
-        packet = Packet(encoded_frame.data)
-        packet.pts = encoded_frame.timestamp
-        packet.time_base = TIME_BASE
-        return cast(list[Frame], self.codec.decode(packet))
+        # An empty packet would put the codec into draining mode for good.
+        if not encoded_frame.data:
+            return []
+
+        try:
+            packet = Packet(encoded_frame.data)
+            packet.pts = encoded_frame.timestamp
+            packet.time_base = TIME_BASE
+            return cast(list[Frame], self.codec.decode(packet))
+        except FFmpegError as e:
+            logger.warning("PcmDecoder() failed to decode, skipping packet: " + str(e))
+            return []
 
 
 class PcmEncoder(Encoder):
